@@ -24,7 +24,10 @@ EXPLANATION = (
     "':' in a name (regex AST). C13.SET: compatible implies forceset and unfold; the set branch is taken for "
     "forceset / several RRULEs / any RDATE, EXRULE, EXDATE; under compatible the start is added as an RDATE; unknown "
     "properties and parameters raise ValueError. C13.TERM: the unfold loop makes progress on every path. "
-    "C13.FREQ: a rule text without FREQ is rejected with ValueError before the constructor is called.")
+    "C13.FREQ: a rule text without FREQ is rejected with ValueError before the constructor is called. C13.EXC: the "
+    "exception-escape analysis from rrulestr() (through the date parser it uses) finds only ValueError subclasses or "
+    "OverflowError (numbers too large for the platform) escaping for text input; TypeError only for an ill-typed "
+    "tzinfos value.")
 ASSUMPTIONS = ["parser.parse and tz.gettz resolve dates and TZIDs as documented (C02/C18)",
                "same occurrences for every rule and spelling: NOT decided"]
 
@@ -264,6 +267,15 @@ def run(ctx):
     ctx.ob("C13.FREQ", prr, "unknown part -> ValueError; bad value (KeyError/ValueError) -> ValueError", okh, construct="handlers of the part dispatch", detail=str(conv))
     up = [n for n in rcfg.live_nodes() if n.kind == "stmt" and isinstance(n.ast, ast.Assign) and ".upper()" in src(n.ast.value)]
     ctx.ob("C13.FREQ", prr, "part names and values are upper-cased before dispatch (any letter case is accepted)", len(up) >= 2, construct="name/value .upper()")
+
+    # ---------------------------------------------------------------- C13.EXC
+    from ..exc import check_escape
+    from .c14 import SUPPRESS as PARSER_SUPPRESS, USER as PARSER_USER
+    call = prog.method(rs.qualname, "__call__", "C13.EXC")
+    check_escape(ctx, "C13.EXC", call, ("ValueError", "OverflowError"),
+                 seeds={(call.qualname, "s"): ["str"]}, suppress=PARSER_SUPPRESS,
+                 user=set(PARSER_USER) | {(rs.qualname + "._parse_date_value", "tzlookup"), (rs.qualname + "._parse_date_value", "tzids")},
+                 explicit_ok={("dateutil.parser._parser.parser._build_tzinfo", "TypeError")}, min_functions=60, label="rrulestr()")
 
     # ---------------------------------------------------------------- C13.TERM
     from ..prog import check_cursor_loop
